@@ -907,7 +907,10 @@ func (x *fx) appendBuiltin(s, t *Val, stype, ttype types.Type, set func(*Val)) {
 			h.set = map[string]bool{name: true}
 			x.curMem = h
 			x.noteWrite(name)
-			set(x.havocVal("append", stype))
+			res := x.havocVal("append", stype)
+			// the length is still known: len(s) + len(t)
+			x.assume("(= " + slLen(res.S) + " " + x.iadd(slLen(s.S), slLen(t.S)) + ")")
+			set(res)
 			return
 		}
 		panic(unsupported("append on slice of arrays"))
